@@ -339,8 +339,9 @@ class TermEval:
             return None
         st = mod.toplevel.get(name)
         value = getattr(st, "value", None)
-        scalar = isinstance(value, ast.Constant) and isinstance(value.value, (int, float, str)) and not isinstance(value.value, bool) or (
-            isinstance(value, ast.UnaryOp) and isinstance(value.op, ast.USub) and isinstance(value.operand, ast.Constant) and isinstance(value.operand.value, (int, float)))
+        # (integers and texts only: a float threshold such as `_EPS = 1e-6` stays an opaque named constant, as before)
+        scalar = isinstance(value, ast.Constant) and isinstance(value.value, (int, str)) and not isinstance(value.value, bool) or (
+            isinstance(value, ast.UnaryOp) and isinstance(value.op, ast.USub) and isinstance(value.operand, ast.Constant) and type(value.operand.value) is int)
         if isinstance(st, (ast.Assign, ast.AnnAssign)) and scalar:
             # a module-level number / text bound exactly once (`_INSIDE_VALUE = 1`): the name reads as the literal
             bindings = [n for n in ast.walk(mod.tree) if isinstance(n, ast.Name) and n.id == name and isinstance(n.ctx, (ast.Store, ast.Del))]
